@@ -37,7 +37,7 @@ pub struct TyInfo {
     pub needs_drop: bool,
 }
 
-pub const NTYPES: u8 = 13;
+pub const NTYPES: u8 = 15;
 pub const TY_DROP: u8 = 12;
 
 #[macro_export]
@@ -56,15 +56,17 @@ macro_rules! with_ty {
             9 => { type $T = [u64; 3]; $body }
             10 => { type $T = [u8; 64]; $body }
             11 => { type $T = $crate::types::A16; $body }
-            _ => { type $T = $crate::types::DropCounter; $body }
+            12 => { type $T = $crate::types::DropCounter; $body }
+            13 => { type $T = [u64; 0]; $body }
+            _ => { type $T = [u128; 0]; $body }
         }
     };
 }
 
 pub fn ty_info(idx: u8) -> TyInfo {
-    const NAMES: [&str; 13] = ["()", "u8", "u16", "u32", "u64", "u128", "[u8;3]", "[u16;5]", "[u32;7]", "[u64;3]", "[u8;64]", "A16", "DropCounter"];
+    const NAMES: [&str; 15] = ["()", "u8", "u16", "u32", "u64", "u128", "[u8;3]", "[u16;5]", "[u32;7]", "[u64;3]", "[u8;64]", "A16", "DropCounter", "[u64;0]", "[u128;0]"];
     with_ty!(idx, T => TyInfo {
-        name: NAMES[(idx as usize).min(12)],
+        name: NAMES[(idx as usize).min(14)],
         size: std::mem::size_of::<T>(),
         align: std::mem::align_of::<T>(),
         needs_drop: std::mem::needs_drop::<T>(),
